@@ -3,6 +3,8 @@ package sendsim
 import (
 	"context"
 	"fmt"
+	"os"
+	"strconv"
 	"sync"
 	"time"
 
@@ -27,12 +29,23 @@ import (
 const (
 	// K: more than this many consecutive attempts with no simulated time between the end of
 	// one attempt and the start of the next is "retrying without backing off".
-	busyWindowK = 64
+	defaultBusyWindowK = 64
 	// more attempts than this within one call is "unbounded".
 	maxAttempts = 1000
 	// slack added to every simulated-time bound.
 	slack = 60 * time.Second
 )
+
+// busyWindowK returns K. SENDSIM_K overrides it (debugging aid only: e.g. SENDSIM_K=100000 shows
+// that a busy-retry witness really runs into the attempt budget).
+func busyWindowK() int {
+	if v := os.Getenv("SENDSIM_K"); v != "" {
+		if n, err := strconv.Atoi(v); err == nil && n > 0 {
+			return n
+		}
+	}
+	return defaultBusyWindowK
+}
 
 // attempt is what the client stub records about one SendRequest / SendRequestAsync.
 type attempt struct {
@@ -87,6 +100,10 @@ type run struct {
 	verID    locate.RegionVerID
 
 	mu            sync.Mutex
+	warming       bool       // the warm-up call is running
+	warm          []*attempt // attempts of the warm-up call
+	warmResp      *tikvrpc.Response
+	warmErr       error
 	attempts      []*attempt
 	lastEnd       time.Duration
 	zeroRun       int // length of the current run of attempts with zero pause
@@ -94,6 +111,7 @@ type run struct {
 	aborted       string // non-empty: the harness gave up on the call (reason)
 	busyAt        int    // attempt index at which the busy window overflowed (-1)
 	cancelCaller  context.CancelFunc
+	callerCtx     context.Context // the context the caller put into its Backoffer
 	validateCalls int
 	livenessCalls int
 	closedAddrs   int
@@ -183,7 +201,7 @@ func (r *run) buildWorld() error {
 	pdCli := locate.NewCodecPDClient(apicodec.ModeTxn, mocktikv.NewPDClient(r.cluster))
 	r.cache = locate.NewRegionCache(pdCli, locate.RegionCacheNoHealthTick)
 	if sc.Forwarding {
-		r.cache.EnableForwarding()
+		locate.VerifSendsimSetForwarding(r.cache, true)
 	}
 	locate.VerifSendsimSetLiveness(r.cache, func(storeID uint64, addr string) uint32 {
 		r.mu.Lock()
@@ -288,8 +306,14 @@ var errRejectedTS = errors.New("sendsim: read ts rejected by the validator")
 
 func (v validatorStub) ValidateReadTS(ctx context.Context, readTS uint64, isStaleRead bool, opt *oracle.Option) error {
 	v.r.mu.Lock()
-	v.r.validateCalls++
+	warming := v.r.warming
+	if !warming {
+		v.r.validateCalls++
+	}
 	v.r.mu.Unlock()
+	if warming {
+		return nil // the warm-up call always gets through
+	}
 	if v.r.sc.Validate == "reject" {
 		return errRejectedTS
 	}
@@ -352,6 +376,12 @@ func (r *run) begin(addr string, req *tikvrpc.Request, isAsync bool) *attempt {
 		a.InnerOK = true
 	}
 	a.Pause = -1
+	if r.warming {
+		a.Idx = len(r.warm)
+		a.ScriptSym, a.Sym = symOK, symOK
+		r.warm = append(r.warm, a)
+		return a
+	}
 	if a.Idx > 0 {
 		a.Pause = a.Start - r.lastEnd
 		if a.Pause == 0 {
@@ -369,7 +399,7 @@ func (r *run) begin(addr string, req *tikvrpc.Request, isAsync bool) *attempt {
 	a.Sym = a.ScriptSym
 	r.attempts = append(r.attempts, a)
 	if r.aborted == "" {
-		if r.zeroRun > busyWindowK {
+		if r.zeroRun > busyWindowK() {
 			r.busyAt = a.Idx
 			r.abortLocked("busy-window")
 		} else if len(r.attempts) > maxAttempts {
@@ -394,6 +424,17 @@ func (r *run) abort(why string) {
 	r.mu.Unlock()
 }
 
+func (r *run) isWarm(a *attempt) bool {
+	r.mu.Lock()
+	defer r.mu.Unlock()
+	for _, w := range r.warm {
+		if w == a {
+			return true
+		}
+	}
+	return false
+}
+
 func (r *run) isAborted() bool {
 	r.mu.Lock()
 	defer r.mu.Unlock()
@@ -408,7 +449,9 @@ func (r *run) end(a *attempt, resp *tikvrpc.Response, err error) (*tikvrpc.Respo
 	if resp != nil {
 		a.RegionErr, _ = resp.GetRegionError()
 	}
-	r.lastEnd = a.End
+	if !r.warming {
+		r.lastEnd = a.End
+	}
 	return resp, err
 }
 
@@ -417,12 +460,26 @@ func (r *run) end(a *attempt, resp *tikvrpc.Response, err error) (*tikvrpc.Respo
 // error; an RPC that outlives its timeout yields a deadline-exceeded error.
 func (r *run) serve(ctx context.Context, a *attempt, req *tikvrpc.Request, timeout time.Duration) (*tikvrpc.Response, error) {
 	sc := r.sc
+	if r.isWarm(a) {
+		switch req.Type {
+		case tikvrpc.CmdGet:
+			return r.end(a, &tikvrpc.Response{Resp: &kvrpcpb.GetResponse{Value: []byte("value-of-the-warm-up-call")}}, nil)
+		case tikvrpc.CmdPrewrite:
+			return r.end(a, &tikvrpc.Response{Resp: &kvrpcpb.PrewriteResponse{MinCommitTs: 7}}, nil)
+		default:
+			return r.end(a, &tikvrpc.Response{Resp: &kvrpcpb.CommitResponse{CommitVersion: 7}}, nil)
+		}
+	}
 	if r.isAborted() {
 		a.Sym = "abort"
 		return r.end(a, nil, errors.WithStack(context.Canceled))
 	}
 	if err := ctx.Err(); err != nil {
-		a.Sym = symCallerGone
+		if r.callerCtx.Err() != nil {
+			a.Sym = symCallerGone
+		} else {
+			a.Sym = SymDeadline
+		}
 		return r.end(a, nil, errors.WithStack(err))
 	}
 	// a store that is really down refuses the connection whatever the script says
@@ -461,12 +518,12 @@ func (r *run) serve(ctx context.Context, a *attempt, req *tikvrpc.Request, timeo
 				a.Sym = "abort"
 				return r.end(a, nil, errors.WithStack(context.Canceled))
 			}
-			if err := ctx.Err(); err != nil {
+			if r.callerCtx.Err() != nil {
 				// the caller's own context ended (cancel or deadline)
 				a.Sym = symCallerGone
-				return r.end(a, nil, errors.WithStack(err))
+				return r.end(a, nil, errors.WithStack(rpcCtx.Err()))
 			}
-			// the RPC timeout fired
+			// the RPC timeout fired (for the async API it is part of ctx itself)
 			a.Sym = SymDeadline
 			return r.end(a, nil, r.deadlineErr())
 		}
@@ -593,6 +650,47 @@ func (r *run) hangBudget() time.Duration {
 		time.Duration(maxAttempts+1)*perAttempt + slack
 }
 
+// warmup serves one fault-free call with the sender that the call under test will use.
+func (r *run) warmup(sender *locate.RegionRequestSender) {
+	r.mu.Lock()
+	r.warming = true
+	r.mu.Unlock()
+	req, opts := r.buildRequest()
+	bo := retry.NewBackofferWithVars(context.Background(), 1000, nil)
+	done := make(chan struct{})
+	go func() {
+		defer close(done)
+		if r.sc.API == "async" {
+			complete := false
+			rl := async.NewRunLoop()
+			cb := async.NewCallback(rl, func(re *tikvrpc.ResponseExt, e error) {
+				if re != nil {
+					r.warmResp = &re.Response
+				}
+				r.warmErr = e
+				complete = true
+			})
+			sender.SendReqAsync(bo, req, r.verID, 30*time.Second, cb, opts...)
+			for !complete {
+				if _, e := rl.Exec(context.Background()); e != nil {
+					break
+				}
+			}
+		} else {
+			r.warmResp, _, _, r.warmErr = sender.SendReqCtx(bo, req, r.verID, 30*time.Second, tikvrpc.TiKV, opts...)
+		}
+	}()
+	select {
+	case <-done:
+	case <-time.After(time.Hour):
+		r.leaked = true
+	}
+	r.wg.Wait()
+	r.mu.Lock()
+	r.warming = false
+	r.mu.Unlock()
+}
+
 func (r *run) execute() {
 	sc := r.sc
 	r.start = time.Now()
@@ -609,6 +707,16 @@ func (r *run) execute() {
 		validator = validatorStub{r}
 	}
 	sender := locate.NewRegionRequestSender(r.cache, &stubClient{r}, validator)
+	if sc.Warmup {
+		r.warmup(sender)
+	}
+	// The region cache's background tickers run on whole multiples of their periods since the
+	// creation of the cache; every duration of a scenario is a whole number of microseconds.
+	// Starting the call at an odd sub-microsecond offset keeps the call's own events from ever
+	// sharing an instant with a background tick (goroutines woken at the same fake instant run
+	// in an order the simulator does not control, and both sides draw from the global math/rand).
+	time.Sleep(37*time.Microsecond + 500*time.Nanosecond)
+	r.start = time.Now()
 	req, opts := r.buildRequest()
 
 	ctx, cancel := context.WithCancel(context.Background())
@@ -628,6 +736,7 @@ func (r *run) execute() {
 		})
 		defer t.Stop()
 	}
+	r.callerCtx = ctx
 	bo := retry.NewBackofferWithVars(ctx, sc.BudgetMs, nil)
 	timeout := time.Duration(sc.TimeoutMs) * time.Millisecond
 
